@@ -309,6 +309,7 @@ func main() {
 	runsFlag := flag.Int("runs", 0, "override the number of runs")
 	workersFlag := flag.Int("workers", 0, "worker processes (default: number of CPUs)")
 	flag.BoolVar(&keep, "keep", false, "keep the scratch directory")
+	noEvidence := flag.Bool("noevidence", false, "do not write the evidence file (used when trying seeded breakages)")
 	detFlag := flag.Int("determinism", -1, "number of seeds for the determinism self-test (default per tier)")
 	flag.Parse()
 	if flag.NArg() != 1 {
@@ -702,8 +703,10 @@ func main() {
 	}
 	os.MkdirAll(filepath.Join(verifDir, "evidence"), 0o755)
 	eb, _ := json.MarshalIndent(ev, "", " ")
-	if err := os.WriteFile(filepath.Join(verifDir, "evidence", prop+".json"), eb, 0o644); err != nil {
-		die(2, "cannot write evidence: %v", err)
+	if !*noEvidence {
+		if err := os.WriteFile(filepath.Join(verifDir, "evidence", prop+".json"), eb, 0o644); err != nil {
+			die(2, "cannot write evidence: %v", err)
+		}
 	}
 	for _, l := range knownLines {
 		fmt.Println(l)
